@@ -25,7 +25,7 @@ PROPS = {
         ],
         "run_modules": ["RunC11"],
         "rule": "scaled constants (CHUNK=64, BLOCK=256). enc: every plaintext length 0..2*CHUNK+20 (quick) / 0..4*CHUNK+20 x4 (thorough), "
-                "each with a random 30-op in-range history of single reads and seeks from start/current/end biased to chunk edges. "
+                "each with a random 30-op in-range history of single reads and seeks from start/current/end biased to chunk edges; every third length also over a source that returns fewer bytes than asked on every read (c11-enc-thr-*: same rows, state columns included). "
                 "enc out-of-range (model correspondence only, no oracle): 7 (quick) / 11 (thorough) lengths x 17 seeks outside [0, len] — Start(u64::MAX), Start(u64::MAX-k), "
                 "the first position the D20 guard refuses and the last it accepts, Start(2^63-1 / 2^63 / 2^63+1), Start(2^32 chunks), Current(i64::MAX) at position 0, Current(i64::MIN), "
                 "End(1), End(i64::MAX), End(i64::MIN), End(i64::MIN+1) — each followed by two reads, an in-range seek and a read: status class, returned position and the reader state "
@@ -125,12 +125,13 @@ PROPS = {
         ],
         "rule": "corpus of tools/keys/gen_corpus.py: sample keys, generated X25519/Ed25519 keys in DER and PEM, EVERY single-byte mutation "
                 "(00, ff, +1, -1, ^80) and EVERY truncation of the 48-byte private and 44-byte public DER (also inside PEM), hand-made DER shapes, "
-                "PEM line widths 1..76/no wrap x CRLF/LF, whitespace/garbage, concatenations of 1-5 keys, random strings; quick keeps every third "
+                "PEM line widths 1..76/no wrap x CRLF/LF, whitespace/garbage, concatenations of 1-5 keys, PEM files holding two blocks, random strings; quick keeps every third "
                 "input of the two largest mutation sweeps; non-trivial = non-empty input; distinct = distinct input",
         "exhaustive": {"quick": False, "thorough": True},
         "explanation": "theorems: export/parse round trip, base64/PEM round trip for every line width, many-keys order, totality (never Crash) "
                        "of all parsers on every byte string; correspondence: outcome class and the 32 key bytes of the three real parse functions "
-                       "equal the model's on every corpus input; curve conversions (SHA-512 clamp, Edwards->Montgomery) are parameters of the "
+                       "equal the model's on every corpus input; a parser that ACCEPTS an input the model (Keys.v, where 'key file' is defined for the theorems) refuses, or returns other octets, "
+                       "fails the property's own oracle ('on any other input the parsers return an error'); curve conversions (SHA-512 clamp, Edwards->Montgomery) are parameters of the "
                        "model (applied by the job script; Concrete/Ed25519.v proves the pair-match KATs)",
         "assumptions": ["der-parser 10 / asn1-rs 0.7 / pem 3.0.5 / base64 0.22 behaviour as modelled in Keys.v (validated on 5.8k inputs)",
                         "Ed25519->X25519 conversion correctness is curve mathematics (sampled: 24/24 pairs; 2 in-Coq KATs), not proved"],
